@@ -20,7 +20,10 @@ import os
 
 from common import setup_repo_import
 from lib import lossworld as LW
-from vloop import Stall, vrun
+import vloop
+from vloop import Spin, Stall, vrun
+
+vloop.SPIN_LIMIT = min(vloop.SPIN_LIMIT, 5.0)  # a loop iteration of these cases takes microseconds
 
 ID = "C08"
 GENS = ["c04_limits", "c06_doip", "c07_hsfz", "c08_loss"]
@@ -183,9 +186,9 @@ def run_impl(case):
     st = {}
     try:
         if case["level"] == "T":
-            r, _ = vrun(_impl_T(case), horizon=7200.0)
+            r, _ = vrun(_impl_T(case), horizon=7200.0, livelock=5.0)
         else:
-            r, _ = vrun(_impl_C(case, st), horizon=7200.0)
+            r, _ = vrun(_impl_C(case, st), horizon=7200.0, livelock=5.0)
         return r
     except Stall:
         w = _CUR["world"]
@@ -195,6 +198,11 @@ def run_impl(case):
         if "first" in st:
             return f"{st['first']} blocked - {len(w.conns)} {_requests_written(w)}"
         return f"blocked ? - - {len(w.conns)} {_requests_written(w)}"
+    except Spin:
+        w = _CUR["world"]
+        if case["level"] == "T":
+            return f"spin {T0} - - - {len(w.conns)}"
+        return f"{st.get('first', 'spin')} spin - {len(w.conns)} {_requests_written(w)}"
     except Exception as e:  # noqa: BLE001
         return f"harness-exc:{type(e).__name__}:{str(e)[:80].replace(' ', '_')}"
 
@@ -274,6 +282,9 @@ def spec_check(case, obs):
     if obs.startswith("harness-exc"):
         return [("not-drivable", obs)]
     legit = {LW.final(i).hex() for i in range(0, 8)}
+    if "spin" in f[:3]:
+        return [("busy-loop", "the pending operation never returns and never suspends: the event loop is frozen "
+                              "(no callback returned to the loop / no virtual-time progress for %g s of wall-clock time)" % vloop.SPIN_LIMIT)]
     if case["level"] == "T":
         res, t_end = f[0], f[1]
         if res == "blocked":
